@@ -147,148 +147,162 @@ def rename_fields(rng, inp):
     return names
 
 
+
+def _uninterpretable(i, pid):
+    """an exception while a case was being built from what the library returned: a verdict about the library (the stream runs
+    on the unchanged tree with many seeds without ever getting here), not a crash of the check"""
+    import traceback
+    return {"stream": "uninterpretable", "op": "uninterpretable", "term": "[true; false; true; true]",
+            "input": {"case_number": i}, "impl_repr": "the case could not be built / interpreted: " + traceback.format_exc()[-700:],
+            "meta": {"impl_raised": True}, "sig": ["uninterpretable", pid, i], "trivial": False,
+            "hist": {"op": "uninterpretable"}}
+
+
 def generate(ctx):
     rng = ctx.rng
     cases = []
     n_cases = ctx.budget(150, 1400)
     for i in range(n_cases):
-        corner = {0: "zero_rows", 1: "all_missing", 2: "all_empty"}.get(i % 50)
-        inp = ao.mk_input(rng, max_rows=7 if ctx.tier == "quick" else 12, recipes=fo.LAYOUTS, corner=corner,
-                          recipe=fo.LAYOUTS[i % len(fo.LAYOUTS)] if i < len(fo.LAYOUTS) else None)
-        if inp.get("history_failed"):
-            cases.append(ao.history_failure_case(inp))
-            continue
-        if inp["built"][0] != "ok":
-            continue
-        schema = inp["schema"]
-        names = rename_fields(rng, inp)
-        nest = rng.choice(["n", "n", "n", "my nest"])
-        arr = inp["arr"]
-        if names != [n for n, _ in schema]:
-            st2 = pa.struct([pa.field(nm, f.type) for nm, f in zip(names, inp["ca"].type)])
-            arr = type(arr)(pa.chunked_array([pa.StructArray.from_arrays([c.field(j) for j in range(len(names))], names=names,
-                                                                           mask=c.is_null()) for c in arr.chunked_array.chunks], type=st2))
-        n = len(inp["rows"])
-        labels, label_kind = gen.gen_labels(rng, n, rng.choice(["repeats", "str_repeats"]) if i % 10 == 6 else None)
-        nf = NestedFrame({"x": list(range(n)), "y": [rng.choice(["p", "q", "r"]) for _ in range(n)],
-                          "w": pd.array([rng.choice([1, 2, 2, 3, None]) for _ in range(n)], dtype=pd.ArrowDtype(pa.int64()))},
-                         index=gen.as_index(labels, label_kind))
-        nf[nest] = pd.Series(arr, index=nf.index, name=nest)
-        other_rows = gen.gen_rows(rng, [("q", "int64")], n, max_len=2)
-        nf["other"] = pd.Series(type(arr)(pa.array(other_rows, type=gen.struct_type([("q", "int64")]))), index=nf.index, name="other")
-        rows = fo.rows_rm(inp["ca"])
-        # (.nest.query_flat is NOT part of this property: the accessor knows rows only by label, re-packs by label with
-        # pack_sorted_df_into_struct and therefore needs sorted, distinct labels; it is exercised only in that domain)
-        kind = ["nested"] * 6 + ["base", "base", "mixed", "query_flat"]
-        kind = kind[i % len(kind)]
-        if kind == "query_flat" and (len(set(labels)) != len(labels) or list(labels) != sorted(labels)):
-            kind = "nested"      # query_flat re-packs by label: sorted, distinct labels only (outside this property otherwise)
-        fields = list(zip(names, [t for _, t in schema]))
-        quote = rng.choice(["none", "none", "field", "both"])
-        inplace = rng.random() < 0.3
-        if kind in ("nested", "query_flat"):
-            e = gen_cond(rng, fields)
-            if e is None:
+        try:
+            corner = {0: "zero_rows", 1: "all_missing", 2: "all_empty"}.get(i % 50)
+            inp = ao.mk_input(rng, max_rows=7 if ctx.tier == "quick" else 12, recipes=fo.LAYOUTS, corner=corner,
+                              recipe=fo.LAYOUTS[i % len(fo.LAYOUTS)] if i < len(fo.LAYOUTS) else None)
+            if inp.get("history_failed"):
+                cases.append(ao.history_failure_case(inp))
                 continue
-            text_plain = render(e, plain_ref)
-            text = render(e, nested_ref(nest, quote)) if kind == "nested" else text_plain
-            # oracle: one row at a time
-            def oracle():
-                return [eval_mask(row_table(schema, names, r), text_plain) for r in rows]
-            masks = attempt(oracle)
+            if inp["built"][0] != "ok":
+                continue
+            schema = inp["schema"]
+            names = rename_fields(rng, inp)
+            nest = rng.choice(["n", "n", "n", "my nest"])
+            arr = inp["arr"]
+            if names != [n for n, _ in schema]:
+                st2 = pa.struct([pa.field(nm, f.type) for nm, f in zip(names, inp["ca"].type)])
+                arr = type(arr)(pa.chunked_array([pa.StructArray.from_arrays([c.field(j) for j in range(len(names))], names=names,
+                                                                               mask=c.is_null()) for c in arr.chunked_array.chunks], type=st2))
+            n = len(inp["rows"])
+            labels, label_kind = gen.gen_labels(rng, n, rng.choice(["repeats", "str_repeats"]) if i % 10 == 6 else None)
+            nf = NestedFrame({"x": list(range(n)), "y": [rng.choice(["p", "q", "r"]) for _ in range(n)],
+                              "w": pd.array([rng.choice([1, 2, 2, 3, None]) for _ in range(n)], dtype=pd.ArrowDtype(pa.int64()))},
+                             index=gen.as_index(labels, label_kind))
+            nf[nest] = pd.Series(arr, index=nf.index, name=nest)
+            other_rows = gen.gen_rows(rng, [("q", "int64")], n, max_len=2)
+            nf["other"] = pd.Series(type(arr)(pa.array(other_rows, type=gen.struct_type([("q", "int64")]))), index=nf.index, name="other")
+            rows = fo.rows_rm(inp["ca"])
+            # (.nest.query_flat is NOT part of this property: the accessor knows rows only by label, re-packs by label with
+            # pack_sorted_df_into_struct and therefore needs sorted, distinct labels; it is exercised only in that domain)
+            kind = ["nested"] * 6 + ["base", "base", "mixed", "query_flat"]
+            kind = kind[i % len(kind)]
+            if kind == "query_flat" and (len(set(labels)) != len(labels) or list(labels) != sorted(labels)):
+                kind = "nested"      # query_flat re-packs by label: sorted, distinct labels only (outside this property otherwise)
+            fields = list(zip(names, [t for _, t in schema]))
+            quote = rng.choice(["none", "none", "field", "both"])
+            inplace = rng.random() < 0.3
+            if kind in ("nested", "query_flat"):
+                e = gen_cond(rng, fields)
+                if e is None:
+                    continue
+                text_plain = render(e, plain_ref)
+                text = render(e, nested_ref(nest, quote)) if kind == "nested" else text_plain
+                # oracle: one row at a time
+                def oracle():
+                    return [eval_mask(row_table(schema, names, r), text_plain) for r in rows]
+                masks = attempt(oracle)
 
-            def run():
-                before = fo.snapshot(nf, skip=(nest,))
-                if kind == "nested":
+                def run():
+                    before = fo.snapshot(nf, skip=(nest,))
+                    if kind == "nested":
+                        target = nf.copy() if inplace else nf
+                        out = target.query(text, inplace=inplace)
+                        out = target if inplace else out
+                        assert isinstance(out, NestedFrame), "result is not a NestedFrame"
+                        assert fo.snapshot(out, skip=(nest,)) == before, "labels, order, base or other nested columns changed"
+                        assert list(out.columns) == list(nf.columns)
+                        return fo.rows_rm(out[nest].array.chunked_array)
+                    s = nf[nest].nest.query_flat(text)
+                    # query_flat drops the rows left without records (documented): compare the surviving rows by label position
+                    return ("flat", [repr(x) for x in s.index], fo.rows_rm(s.array.chunked_array))
+                res = attempt(run)
+                if masks[0] == "err":
+                    # the condition itself is not evaluable (e.g. integer overflow): the query must be refused too
+                    term = f"[true; {cq_bool(res[0] == 'err')}; true; true]"
+                    nontrivial = False
+                elif kind == "nested":
+                    flat_mask = [b for m in masks[1] for b in m]
+                    term = (f"(match chk_rows (m_query_nested {fo.cq_nrows(rows)} {cq_bools(flat_mask)}) "
+                            f"(Ok (spec_filter_mask {fo.cq_nrows(rows)} {cq_list(cq_bools(m) for m in masks[1])})) {fo.cq_res_nrows(res)} with "
+                            f"[a; b; c; s] => [a && qroute_eqb (m_query_route {to_qx(e, 1)}) (QNest 1); b; c; s] | l => l end)")
+                    nontrivial = any(flat_mask) and not all(flat_mask)
+                else:
+                    want = [[rec for rec, b in zip(r or [], m) if b] for r, m in zip(rows, masks[1])]
+                    keep = [(repr(l), w) for l, w in zip(labels, want) if w]
+                    ok = res[0] == "ok" and res[1][1] == [k for k, _ in keep] and fo.cq_nrows(res[1][2]) == fo.cq_nrows([w for _, w in keep])
+                    term = f"[true; {cq_bool(ok)}; true; true]"
+                    nontrivial = bool(keep)
+            elif kind == "base":
+                e = gen_cond(rng, [("x", "int64"), ("w", "int64"), ("y", "string")])
+                text = render(e, plain_ref)
+                def oracle_b():
+                    base = pd.DataFrame({"x": nf["x"].to_numpy(), "y": nf["y"].to_numpy(), "w": nf["w"].array}, index=nf.index)
+                    return eval_mask(base, text)
+                mask = attempt(oracle_b)
+
+                def run_b():
                     target = nf.copy() if inplace else nf
                     out = target.query(text, inplace=inplace)
                     out = target if inplace else out
-                    assert isinstance(out, NestedFrame), "result is not a NestedFrame"
-                    assert fo.snapshot(out, skip=(nest,)) == before, "labels, order, base or other nested columns changed"
-                    assert list(out.columns) == list(nf.columns)
+                    assert isinstance(out, NestedFrame)
+                    keep = [j for j, b in enumerate(mask[1]) if b]
+                    assert [int(v) for v in out["x"]] == keep, "not exactly the satisfying rows"
+                    assert [repr(v) for v in out.index] == [repr(labels[j]) for j in keep]
+                    assert repr(out["other"].array.chunked_array.to_pylist()) == repr([nf["other"].array.chunked_array.to_pylist()[j] for j in keep])
                     return fo.rows_rm(out[nest].array.chunked_array)
-                s = nf[nest].nest.query_flat(text)
-                # query_flat drops the rows left without records (documented): compare the surviving rows by label position
-                return ("flat", [repr(x) for x in s.index], fo.rows_rm(s.array.chunked_array))
-            res = attempt(run)
-            if masks[0] == "err":
-                # the condition itself is not evaluable (e.g. integer overflow): the query must be refused too
-                term = f"[true; {cq_bool(res[0] == 'err')}; true; true]"
-                nontrivial = False
-            elif kind == "nested":
-                flat_mask = [b for m in masks[1] for b in m]
-                term = (f"(match chk_rows (m_query_nested {fo.cq_nrows(rows)} {cq_bools(flat_mask)}) "
-                        f"(Ok (spec_filter_mask {fo.cq_nrows(rows)} {cq_list(cq_bools(m) for m in masks[1])})) {fo.cq_res_nrows(res)} with "
-                        f"[a; b; c; s] => [a && qroute_eqb (m_query_route {to_qx(e, 1)}) (QNest 1); b; c; s] | l => l end)")
-                nontrivial = any(flat_mask) and not all(flat_mask)
+                res = attempt(run_b)
+                if mask[0] == "err":
+                    term = f"[true; {cq_bool(res[0] == 'err')}; true; true]"
+                    nontrivial = False
+                else:
+                    term = (f"(match chk_rows (Ok (spec_select_rows {fo.cq_nrows(rows)} {cq_bools(mask[1])})) "
+                            f"(Ok (spec_select_rows {fo.cq_nrows(rows)} {cq_bools(mask[1])})) {fo.cq_res_nrows(res)} with "
+                            f"[a; b; c; s] => [a && qroute_eqb (m_query_route {to_qx(e, 0)}) QBase; b; c; s] | l => l end)")
+                    nontrivial = any(mask[1]) and not all(mask[1])
             else:
-                want = [[rec for rec, b in zip(r or [], m) if b] for r, m in zip(rows, masks[1])]
-                keep = [(repr(l), w) for l, w in zip(labels, want) if w]
-                ok = res[0] == "ok" and res[1][1] == [k for k, _ in keep] and fo.cq_nrows(res[1][2]) == fo.cq_nrows([w for _, w in keep])
-                term = f"[true; {cq_bool(ok)}; true; true]"
-                nontrivial = bool(keep)
-        elif kind == "base":
-            e = gen_cond(rng, [("x", "int64"), ("w", "int64"), ("y", "string")])
-            text = render(e, plain_ref)
-            def oracle_b():
-                base = pd.DataFrame({"x": nf["x"].to_numpy(), "y": nf["y"].to_numpy(), "w": nf["w"].array}, index=nf.index)
-                return eval_mask(base, text)
-            mask = attempt(oracle_b)
-
-            def run_b():
-                target = nf.copy() if inplace else nf
-                out = target.query(text, inplace=inplace)
-                out = target if inplace else out
-                assert isinstance(out, NestedFrame)
-                keep = [j for j, b in enumerate(mask[1]) if b]
-                assert [int(v) for v in out["x"]] == keep, "not exactly the satisfying rows"
-                assert [repr(v) for v in out.index] == [repr(labels[j]) for j in keep]
-                assert repr(out["other"].array.chunked_array.to_pylist()) == repr([nf["other"].array.chunked_array.to_pylist()[j] for j in keep])
-                return fo.rows_rm(out[nest].array.chunked_array)
-            res = attempt(run_b)
-            if mask[0] == "err":
-                term = f"[true; {cq_bool(res[0] == 'err')}; true; true]"
-                nontrivial = False
-            else:
-                term = (f"(match chk_rows (Ok (spec_select_rows {fo.cq_nrows(rows)} {cq_bools(mask[1])})) "
-                        f"(Ok (spec_select_rows {fo.cq_nrows(rows)} {cq_bools(mask[1])})) {fo.cq_res_nrows(res)} with "
-                        f"[a; b; c; s] => [a && qroute_eqb (m_query_route {to_qx(e, 0)}) QBase; b; c; s] | l => l end)")
-                nontrivial = any(mask[1]) and not all(mask[1])
-        else:
-            e1 = gen_cond(rng, fields)
-            if e1 is None:
-                continue
-            e2 = gen_cond(rng, [("x", "int64"), ("w", "int64")])
-            # one side or the other under a unary operator, at the top or one level down
-            if rng.random() < 0.5:
-                e1 = ("~", e1)
-            if rng.random() < 0.3:
-                e2 = ("~", e2)
-            if rng.random() < 0.5:
-                text = f"({render(e1, nested_ref(nest, quote))}) & ({render(e2, plain_ref)})"
-                qx = f"(QOp KBinary [{to_qx(e1, 1)}; {to_qx(e2, 0)}])"
-            else:
-                e3 = ('==', ('field', 'q'), ('const', 1))
+                e1 = gen_cond(rng, fields)
+                if e1 is None:
+                    continue
+                e2 = gen_cond(rng, [("x", "int64"), ("w", "int64")])
+                # one side or the other under a unary operator, at the top or one level down
                 if rng.random() < 0.5:
-                    e3 = ("~", e3)
-                text = f"({render(e1, nested_ref(nest, quote))}) | ({render(e3, nested_ref('other', 'none'))})"
-                qx = f"(QOp KBinary [{to_qx(e1, 1)}; {to_qx(e3, 2)}])"
-            if rng.random() < 0.3:
-                text, qx = f"~({text})", f"(QOp KUnary [{qx}])"
-            snap = fo.snapshot(nf)
-            res = attempt(lambda: nf.query(text))
-            same = fo.snapshot(nf) == snap
-            refused = res[0] == "err" and "multiple" in str(res[1]).lower() or res[0] == "err"
-            term = (f"[qroute_eqb (m_query_route {qx}) (if {cq_bool(res[0] == 'err')} then QRefuse else QBase); "
-                    f"{cq_bool(res[0] == 'err' and same)}; true; true]")
-            nontrivial = True
-        cases.append({
-            "stream": "query", "op": "query_" + kind, "term": term,
-            "input": dict(ao.input_repr(inp), labels=[repr(x) for x in labels], field_names=names, nest=nest, expr=text, inplace=inplace),
-            "impl_repr": str(res)[:600],
-            "meta": ao.base_meta(inp, impl_raised=res[0] == "err", repeated_labels=len(set(labels)) != len(labels), label_kind=label_kind),
-            "sig": [kind, inp["recipe"], label_kind, n, len(text) // 10, quote], "trivial": not nontrivial,
-            "hist": {"op": "query_" + kind, "layout": inp["recipe"], "labels": label_kind, "quote": quote, "raised": res[0] == "err"}})
+                    e1 = ("~", e1)
+                if rng.random() < 0.3:
+                    e2 = ("~", e2)
+                if rng.random() < 0.5:
+                    text = f"({render(e1, nested_ref(nest, quote))}) & ({render(e2, plain_ref)})"
+                    qx = f"(QOp KBinary [{to_qx(e1, 1)}; {to_qx(e2, 0)}])"
+                else:
+                    e3 = ('==', ('field', 'q'), ('const', 1))
+                    if rng.random() < 0.5:
+                        e3 = ("~", e3)
+                    text = f"({render(e1, nested_ref(nest, quote))}) | ({render(e3, nested_ref('other', 'none'))})"
+                    qx = f"(QOp KBinary [{to_qx(e1, 1)}; {to_qx(e3, 2)}])"
+                if rng.random() < 0.3:
+                    text, qx = f"~({text})", f"(QOp KUnary [{qx}])"
+                snap = fo.snapshot(nf)
+                res = attempt(lambda: nf.query(text))
+                same = fo.snapshot(nf) == snap
+                refused = res[0] == "err" and "multiple" in str(res[1]).lower() or res[0] == "err"
+                term = (f"[qroute_eqb (m_query_route {qx}) (if {cq_bool(res[0] == 'err')} then QRefuse else QBase); "
+                        f"{cq_bool(res[0] == 'err' and same)}; true; true]")
+                nontrivial = True
+            cases.append({
+                "stream": "query", "op": "query_" + kind, "term": term,
+                "input": dict(ao.input_repr(inp), labels=[repr(x) for x in labels], field_names=names, nest=nest, expr=text, inplace=inplace),
+                "impl_repr": str(res)[:600],
+                "meta": ao.base_meta(inp, impl_raised=res[0] == "err", repeated_labels=len(set(labels)) != len(labels), label_kind=label_kind),
+                "sig": [kind, inp["recipe"], label_kind, n, len(text) // 10, quote], "trivial": not nontrivial,
+                "hist": {"op": "query_" + kind, "layout": inp["recipe"], "labels": label_kind, "quote": quote, "raised": res[0] == "err"}})
+        except Exception:  # noqa: BLE001
+            cases.append(_uninterpretable(i, 'C07'))
     for k, c in enumerate(cases):
         c["cid"] = k
     return cases
